@@ -67,8 +67,13 @@ def search(qual, pairs):
         warnings.simplefilter('ignore')
         for it in range(400):
             period = rng.choice([0.4, 0.5, 0.6])
-            ref = np.array([6.0 + period * k for k in range(rng.randint(4, 12))])
+            ref = np.array([6.0 + period * k for k in range(rng.randint(4, 24))])
             est = np.sort(np.array([t + rng.choice([0, 0, 0.01, -0.02, 0.1]) for t in ref if rng.random() < 0.9] + [6.0 + 10 * rng.random() for _ in range(rng.randint(0, 2))]))
+            if it % 2 == 1 and len(ref) >= 8:
+                # a tracker that follows the beat, then slips to the off-beat while dropping a beat now and then
+                a = rng.randint(3, len(ref) - 3)
+                late = [t + period / 2.0 for k, t in enumerate(ref[a:]) if k % rng.choice([3, 4]) != 1]
+                est = np.array(list(ref[:a]) + late)
             if len(est) < 2:
                 continue
             try:
